@@ -28,3 +28,12 @@ UNITS += [
 for u in UNITS:
     if u.name != "bitrate_addblock_l1_w0_inv":
         u.tier = "thorough"
+UNITS += [
+  Unit("bitrate_init", ["C14"], "lib/bitrate.c", enforce="vorbis_bitrate_init", harness="h_bitrate_small.c", entry="h_bitrate_init",
+       defines=["VERIF_UNIT_BRINIT"], reach=2, timeout=600,
+       assumed=["reservoir_bits <= 2^40; bias in [0,1] as the control interface guarantees (unit enc_ctl)"],
+       note="manager start state: disabled and zeroed without a reservoir; otherwise the reservoir starts inside [0, reservoir_bits] (double multiply + conversion, bit-precise), short_per_long = bs1/bs0, choice 0, no block pending"),
+  Unit("bitrate_flushpacket", ["C14", "C04", "C05"], "lib/bitrate.c", enforce="vorbis_bitrate_flushpacket", harness="h_bitrate_small.c", entry="h_bitrate_flush",
+       defines=["VERIF_UNIT_BRFLUSH"], replace=["oggpack_bytes", "oggpack_get_buffer"], unwindset=["h_bitrate_flush.0:16"], reach=2, timeout=600,
+       note="the packet handed out is exactly the blob the manager chose (the middle one when unmanaged): buffer, byte count, granule position, end-of-stream flag, sequence number of the block; the pending block is consumed once"),
+]
